@@ -7,6 +7,7 @@ import (
 	"crypto/sha256"
 	"encoding/hex"
 	"fmt"
+	"os"
 	"path/filepath"
 	"reflect"
 	"sort"
@@ -223,7 +224,7 @@ func coqStep(p *pipeline.Pipeline, o *stepObs, first bool) (string, bool) {
 	for _, l := range o.Lines {
 		lines = append(lines, hx.Tuple(hx.Str(label(l.Cert)), hx.Str(l.Filter)))
 	}
-	for _, n := range sniNames {
+	for _, n := range sniNames { // the gateway names are outside the converter model
 		served = append(served, hx.Tuple(hx.Str(n), hx.Str(label(o.Served[n]))))
 	}
 	obs := fmt.Sprintf("{| ko_lines := %s; ko_served := %s |}", hx.List(lines), hx.List(served))
@@ -306,27 +307,98 @@ func short(s string) string {
 	return s
 }
 
+// coqInst prints the hosts level case of the current state: the hosts of the real haproxy
+// model as the crt-list part of WriteFrontendMaps reads them (files by base name) and the
+// crt-list file as written, line by line.
+func coqInst(p *pipeline.Pipeline) string {
+	cfg := p.Config()
+	base := func(f string) string {
+		if f == "" {
+			return ""
+		}
+		return filepath.Base(f)
+	}
+	hosts := cfg.Hosts().Items()
+	var names []string
+	for n := range hosts {
+		names = append(names, n)
+	}
+	sort.Strings(names)
+	var hs []string
+	for _, n := range names {
+		h := hosts[n]
+		t := h.TLS
+		hs = append(hs, fmt.Sprintf("{| hc_name := %s; hc_crt := %s; hc_hastls := %s; hc_pass := %s; hc_alpn := %s; hc_ca := %s; hc_crl := %s; hc_ciphers := %s; hc_suites := %s; hc_options := %s |}",
+			hx.Str(h.Hostname), hx.Str(base(t.TLSFilename)), hx.Bool(h.HasTLS()), hx.Bool(h.SSLPassthrough()), hx.Str(t.ALPN), hx.Str(base(t.CAFilename)), hx.Str(base(t.CRLFilename)),
+			hx.Str(t.Ciphers), hx.Str(t.CipherSuites), hx.Str(t.Options)))
+	}
+	raw, err := os.ReadFile(p.RealPath(cfg.Frontend().CrtListFile))
+	if err != nil {
+		return ""
+	}
+	var lines []string
+	for _, l := range strings.Split(string(raw), "\n") {
+		l = strings.TrimSpace(l)
+		if l == "" || strings.HasPrefix(l, "#") {
+			continue
+		}
+		opts := ""
+		if i := strings.Index(l, " ["); i >= 0 {
+			if j := strings.Index(l[i:], "] "); j >= 0 {
+				w := strings.Fields(l[i+2 : i+j])
+				for k := range w {
+					if strings.Contains(w[k], "/") {
+						w[k] = filepath.Base(w[k])
+					}
+				}
+				opts = strings.Join(w, " ")
+				l = l[:i] + l[i+j+1:]
+			}
+		}
+		w := strings.Fields(l)
+		if len(w) != 2 {
+			return ""
+		}
+		lines = append(lines, hx.Tuple(hx.Str(filepath.Base(w[0])), hx.Str(opts), hx.Str(w[1])))
+	}
+	return fmt.Sprintf("{| ki_default := %s; ki_hosts := %s; ki_lines := %s |}", hx.Str(base(cfg.Frontend().DefaultCrtFile)), hx.List(hs), hx.List(lines))
+}
+
 // emitCase writes the correspondence case of one history (already run by the oracle: the
 // Coq steps were recorded then).
-func emitCase(cw *hx.CaseWriter, res *hx.Result, in input, obs []*stepObs) {
-	var steps, dyns []string
+func emitCase(cw *hx.CaseWriter, res *hx.Result, in input, obs []*stepObs, conv bool) {
+	var steps, dyns, insts []string
 	for _, o := range obs {
-		if o.coq == "" {
-			res.Count("corr_skipped_outside_model")
-			return
-		}
-		steps = append(steps, o.coq)
-		if o.dyn != "" {
-			dyns = append(dyns, o.dyn)
-			res.Count("corr_dyn_steps")
+		if o.inst != "" {
+			insts = append(insts, o.inst)
 		}
 	}
-	res.Count(fmt.Sprintf("corr_steps=%d", len(steps)))
+	if conv {
+		for _, o := range obs {
+			if o.coq == "" {
+				res.Count("corr_skipped_outside_model")
+				steps, dyns = nil, nil
+				break
+			}
+			steps = append(steps, o.coq)
+			if o.dyn != "" {
+				dyns = append(dyns, o.dyn)
+				res.Count("corr_dyn_steps")
+			}
+		}
+	}
+	if len(steps) == 0 && len(insts) == 0 {
+		return
+	}
+	if len(steps) > 0 {
+		res.Count(fmt.Sprintf("corr_steps=%d", len(steps)))
+	}
+	res.Count(fmt.Sprintf("corr_hosts_level_steps=%d", len(insts)))
 	var js []interface{}
 	for _, o := range obs {
 		js = append(js, map[string]interface{}{"lines": o.Lines, "served": o.Served, "dyn": o.DynJS, "cmds": o.Cmds, "reloads": o.Reloads})
 	}
 	cw.Add(func(id int) string {
-		return fmt.Sprintf("{| kid := %s; ksteps := %s; kdyns := %s |}", hx.N(id), hx.List(steps), hx.List(dyns))
-	}, map[string]interface{}{"history": in.History, "describe": describe(in.History), "observed": js})
+		return fmt.Sprintf("{| kid := %s; ksteps := %s; kdyns := %s; kinsts := %s |}", hx.N(id), hx.List(steps), hx.List(dyns), hx.List(insts))
+	}, map[string]interface{}{"input": in, "describe": describe(in.History), "observed": js})
 }
